@@ -31,6 +31,8 @@ pub fn def() -> PropDef {
 enum T {
     Int(i32),
     Float(f64),
+    /// a float literal spelled in a particular way (same text for Rust and for the S-expression)
+    FloatLit(String),
     Str(String),
     Char(char),
     True,
@@ -79,8 +81,29 @@ const UNQUOTES: &[(&str, &str)] = &[
     ("let u21: Box<str> = \"boxed\".into();", "Value::from(\"boxed\")"),
     ("let u22: Value = Value::Null;", "Value::Null"),
     ("let u23: Value = Value::symbol(\"sym\");", "Value::symbol(\"sym\")"),
+    // caller variables whose names a macro expansion might use for its own locals (hygiene)
+    ("let tail: i32 = 900;", "Value::from(900i32)"),
+    ("let head: i32 = 901;", "Value::from(901i32)"),
+    ("let list: i32 = 902;", "Value::from(902i32)"),
+    ("let items: i32 = 903;", "Value::from(903i32)"),
+    ("let elements: i32 = 904;", "Value::from(904i32)"),
+    ("let vec: i32 = 905;", "Value::from(905i32)"),
+    ("let value: i32 = 906;", "Value::from(906i32)"),
+    ("let v: i32 = 907;", "Value::from(907i32)"),
+    ("let cons: i32 = 908;", "Value::from(908i32)"),
+    ("let rest: i32 = 909;", "Value::from(909i32)"),
+    ("let result: i32 = 910;", "Value::from(910i32)"),
+    ("let tmp: i32 = 911;", "Value::from(911i32)"),
+    ("let acc: i32 = 912;", "Value::from(912i32)"),
+    ("let cdr: i32 = 913;", "Value::from(913i32)"),
+    ("let car: i32 = 914;", "Value::from(914i32)"),
+    ("let x: i32 = 915;", "Value::from(915i32)"),
+    ("let e: i32 = 916;", "Value::from(916i32)"),
+    ("let t: i32 = 917;", "Value::from(917i32)"),
+    ("let sexp: i32 = 918;", "Value::from(918i32)"),
+    ("let lexpr: i32 = 919;", "Value::from(919i32)"),
 ];
-const UNQ_NAMES: &[&str] = &["u0", "u1", "u2", "u3", "u4", "u5", "u6", "u7", "u8_", "u9", "u10", "u11", "u12", "u13", "u14", "u15", "u16_", "u17", "u18", "u19", "u20", "u21", "u22", "u23"];
+const UNQ_NAMES: &[&str] = &["u0", "u1", "u2", "u3", "u4", "u5", "u6", "u7", "u8_", "u9", "u10", "u11", "u12", "u13", "u14", "u15", "u16_", "u17", "u18", "u19", "u20", "u21", "u22", "u23", "tail", "head", "list", "items", "elements", "vec", "value", "v", "cons", "rest", "result", "tmp", "acc", "cdr", "car", "x", "e", "t", "sexp", "lexpr"];
 
 fn gen_atom(rng: &mut Rng) -> T {
     match rng.below(20) {
@@ -97,6 +120,11 @@ fn gen_atom(rng: &mut Rng) -> T {
         3 => {
             // written in exponent notation (Rust and S-expression syntax coincide)
             let f = *rng.pick(&[1e5, 2.5e-3, 1e21, 6.02e23, 1.5e10, 1e-7, 3e8, 4.5e-10, 1e100]);
+            if rng.chance(1, 3) {
+                // other spellings both languages accept: upper-case E, explicit exponent sign, no fraction
+                let lit = *rng.pick::<&str>(&["1E5", "2E3", "5E-1", "1e+5", "2.5E+3", "1E21", "7E0", "1.5E3", "25E-2", "3E+8", "1e0", "12E1"]);
+                return T::FloatLit(format!("{}{}", if rng.chance(1, 3) { "-" } else { "" }, lit));
+            }
             T::Float(if rng.chance(1, 2) { -f } else { f })
         }
         4 | 5 => T::Str((*rng.pick::<&str>(&["", "hello", "two words", "quo\"te", "back\\slash", "tab\there", "λ unicode 中", "new\nline", "(parens)", "semi;colon", "#hash"])).to_string()),
@@ -113,7 +141,7 @@ fn gen_atom(rng: &mut Rng) -> T {
         _ => {
             let k = rng.below(UNQUOTES.len());
             // u0..u12 are Copy; the others must be cloned, which needs the (expr) form
-            T::Unquote(k, k > 12 || rng.chance(1, 3))
+            T::Unquote(k, (k > 12 && k < 24) || rng.chance(1, 3))
         }
     }
 }
@@ -173,6 +201,7 @@ fn macro_src(t: &T, out: &mut String) {
                 write!(out, "{:?}", f).unwrap()
             }
         }
+        T::FloatLit(l) => out.push_str(l),
         T::Str(s) => write!(out, "{:?}", s).unwrap(),
         T::Char(c) => write!(out, "{:?}", c).unwrap(),
         T::True => out.push_str("#t"),
@@ -236,6 +265,7 @@ fn text_src(t: &T, out: &mut String) {
                 write!(out, "{:?}", f).unwrap()
             }
         }
+        T::FloatLit(l) => out.push_str(l),
         T::Str(s) => out.push_str(&lexpr_string(s)),
         T::Char(c) => write!(out, "#\\x{:x}", *c as u32).unwrap(),
         T::True => out.push_str("#t"),
@@ -282,7 +312,7 @@ fn hazards(t: &T, acc: &mut Vec<&'static str>) {
     let seq = |xs: &Vec<T>, in_list: bool, acc: &mut Vec<&'static str>| {
         for (i, x) in xs.iter().enumerate() {
             if let T::Punct(p) = x {
-                if p == "-" && matches!(xs.get(i + 1), Some(T::Int(_)) | Some(T::Float(_))) {
+                if p == "-" && matches!(xs.get(i + 1), Some(T::Int(_)) | Some(T::Float(_)) | Some(T::FloatLit(_))) {
                     acc.push("minus-symbol-before-number");
                 }
                 if p == "-" && matches!(xs.get(i + 1), Some(T::Str(_)) | Some(T::Char(_))) {
@@ -291,7 +321,7 @@ fn hazards(t: &T, acc: &mut Vec<&'static str>) {
                 if p == ":" && matches!(xs.get(i + 1), Some(T::Sym(_)) | Some(T::Str(_))) {
                     acc.push("colon-symbol-before-name");
                 }
-                if p == ":" && matches!(xs.get(i + 1), Some(T::Int(_)) | Some(T::Float(_)) | Some(T::Char(_))) {
+                if p == ":" && matches!(xs.get(i + 1), Some(T::Int(_)) | Some(T::Float(_)) | Some(T::FloatLit(_)) | Some(T::Char(_))) {
                     acc.push("colon-symbol-before-literal");
                 }
                 if p.starts_with('.') && in_list {
@@ -328,7 +358,7 @@ fn hazards(t: &T, acc: &mut Vec<&'static str>) {
 fn atom_kinds(t: &T, acc: &mut Vec<&'static str>) {
     let k = match t {
         T::Int(_) => "int",
-        T::Float(_) => "float",
+        T::Float(_) | T::FloatLit(_) => "float",
         T::Str(_) => "string",
         T::Char(_) => "char",
         T::True | T::False => "bool",
